@@ -22,8 +22,11 @@ func fixedTx(label string, hs int, del bool) HTx {
 	return tx
 }
 
-func enumOp(kind int, label string, hs int) POp {
+func enumOp(kind int, label string, hs int, ab ...int) POp {
 	op := POp{Kind: kind}
+	if len(ab) == 2 {
+		op.A, op.B = ab[0], ab[1]
+	}
 	switch kind {
 	case KAdd:
 		op.Txs = []HTx{fixedTx(label, hs, false)}
@@ -41,7 +44,9 @@ func enumeratePreemptions(rec *Recorder, id string, mon Monitors, shard, nshards
 	kinds := []struct {
 		kind int
 		auto bool
-	}{{KAdd, false}, {KAdd, true}, {KAddMulti, false}, {KCompactAll, false}, {KAutoCompact, false}, {KClean, false}, {KClose, false}, {KOpen, false}}
+		a, b int
+	}{{KAdd, false, 0, 0}, {KAdd, true, 0, 0}, {KAddMulti, false, 0, 0}, {KCompactAll, false, 0, 0}, {KAutoCompact, false, 0, 0}, {KClean, false, 0, 0},
+		{KClose, false, 0, 0}, {KOpen, false, 0, 0}, {KCompactRange, false, 0, 1}, {KCompactRange, false, 2, 3}}
 	total, nontrivial := 0, 0
 	idx := 0
 	for shape := 0; shape < 3; shape++ {
@@ -61,7 +66,7 @@ func enumeratePreemptions(rec *Recorder, id string, mon Monitors, shard, nshards
 						continue
 					}
 					base := Case{Cfg: cfg, Init: init,
-						Progs: []Prog{{Auto: a.auto, Ops: []POp{{Kind: KOpen}, enumOp(a.kind, "A", hs)}}, {Auto: b.auto, Ops: []POp{{Kind: KOpen}, enumOp(b.kind, "B", hs)}}}}
+						Progs: []Prog{{Auto: a.auto, Ops: []POp{{Kind: KOpen}, enumOp(a.kind, "A", hs, a.a, a.b)}}, {Auto: b.auto, Ops: []POp{{Kind: KOpen}, enumOp(b.kind, "B", hs, b.a, b.b)}}}}
 					// first run A alone to completion to learn its number of yields
 					probe := base
 					probe.Sched = SchedSpec{Kind: "windowed", Order: []int{0, 1}, K: []int{1 << 30}}
